@@ -131,11 +131,13 @@ class Ctx:
       "wall_s": round(time.time() - self.t0, 2),
       "violations": nviol,
     }
-    os.makedirs(EVID, exist_ok=True)
-    tmp = os.path.join(EVID, f".{self.pid}.json.tmp")
+    # a replay of one scenario is not a record of the check: it goes next to the replay files and leaves evidence/<id>.json alone
+    dirn, name = (REPLAY, f"{self.pid}.replay-evidence.json") if getattr(self, "replaying", False) else (EVID, f"{self.pid}.json")
+    os.makedirs(dirn, exist_ok=True)
+    tmp = os.path.join(dirn, f".{name}.tmp")
     with open(tmp, "w") as f:
       json.dump(ev, f, indent=1, default=str)
-    os.replace(tmp, os.path.join(EVID, f"{self.pid}.json"))
+    os.replace(tmp, os.path.join(dirn, name))
 
 
 # ---------------------------------------------------------------------------
